@@ -24,6 +24,60 @@ type vhost struct {
 	rack   string
 	tokens []string
 	noTok  bool // invalid peer row: no tokens
+	// nullCols / emptyCols: system.peers columns of this node's row that are served as NULL / as a zero-length value
+	// (kinds of invalid peer rows: gocql documents a peer without rpc_address, host_id, data_center, rack or tokens as
+	// invalid). noTok is nullCols{"tokens"}. The node's own system.local row is always complete.
+	nullCols  []string
+	emptyCols []string
+}
+
+// validityCols: the system.peers columns whose absence makes a peer row invalid (what gocql's isValidPeer, host_source.go, documents as an invalid peer).
+var validityCols = []string{"rpc_address", "host_id", "data_center", "rack", "tokens"}
+
+func (h vhost) absent(col string) bool {
+	if col == "tokens" && h.noTok {
+		return true
+	}
+	for _, c := range h.nullCols {
+		if c == col {
+			return true
+		}
+	}
+	for _, c := range h.emptyCols {
+		if c == col {
+			return true
+		}
+	}
+	return false
+}
+
+// invalid: the node's system.peers row lacks one of the columns a valid peer must have.
+func (h vhost) invalid() bool {
+	for _, c := range validityCols {
+		if h.absent(c) {
+			return true
+		}
+	}
+	return false
+}
+
+// peersCell: the cell served for a column of this node's system.peers row: b, or NULL (nil) for a nullCols column, or
+// empty for an emptyCols column (a zero-length value; for the tokens collection: a set of zero elements).
+func (h vhost) peersCell(col string, b []byte, empty []byte) []byte {
+	if col == "tokens" && h.noTok {
+		return nil
+	}
+	for _, c := range h.nullCols {
+		if c == col {
+			return nil
+		}
+	}
+	for _, c := range h.emptyCols {
+		if c == col {
+			return empty
+		}
+	}
+	return b
 }
 
 type cview struct {
@@ -42,6 +96,12 @@ func (v *cview) String() string {
 		s := h.id[len(h.id)-2:] + "@" + h.ip
 		if h.noTok {
 			s += "(invalid)"
+		}
+		if len(h.nullCols) > 0 {
+			s += "(null:" + strings.Join(h.nullCols, "+") + ")"
+		}
+		if len(h.emptyCols) > 0 {
+			s += "(empty:" + strings.Join(h.emptyCols, "+") + ")"
 		}
 		b = append(b, s)
 	}
@@ -133,11 +193,9 @@ func (sn *sysnode) rowsFor(stmt string, version int) (*frame.ResultRows, *frame.
 			if h.ip == sn.self {
 				continue
 			}
-			var toks []byte
-			if !h.noTok {
-				toks = tokensCell(version, h.tokens)
-			}
-			r.Rows = append(r.Rows, [][]byte{inetCell(h.nodeIP()), uuidBytes(h.id), frame.TextCell(h.dc), frame.TextCell(h.rack), frame.TextCell("3.11.4"), toks, inetCell(h.ip), uuidBytes(schemaVersion)})
+			e := []byte{}
+			r.Rows = append(r.Rows, [][]byte{inetCell(h.nodeIP()), h.peersCell("host_id", uuidBytes(h.id), e), h.peersCell("data_center", frame.TextCell(h.dc), e), h.peersCell("rack", frame.TextCell(h.rack), e),
+				frame.TextCell("3.11.4"), h.peersCell("tokens", tokensCell(version, h.tokens), tokensCell(version, nil)), h.peersCell("rpc_address", inetCell(h.ip), e), uuidBytes(schemaVersion)})
 		}
 		if sn.peersLog != nil {
 			*sn.peersLog = append(*sn.peersLog, v.String())
